@@ -2286,11 +2286,10 @@ class SFTPGlob:
 
         self._matched = True
 
-        if self._multiple:
-            if path not in self._prev_matches:
-                self._prev_matches.add(path)
-            else:
-                return
+        if path not in self._prev_matches:
+            self._prev_matches.add(path)
+        else:
+            return
 
         self._new_matches.append(SFTPName(path, attrs=attrs))
 
@@ -3977,6 +3976,8 @@ class SFTPClient:
                 if not await dstfs.isdir(dstpath):
                     await dstfs.mkdir(dstpath)
 
+                filenames: Set[bytes] = set()
+
                 async for srcname in srcfs.scandir(srcpath):
                     filename = cast(bytes, srcname.filename)
 
@@ -3985,6 +3986,11 @@ class SFTPClient:
 
                     if b'/' in filename:
                         raise SFTPBadMessage('Invalid directory entry name')
+
+                    if filename in filenames:
+                        raise SFTPBadMessage('Duplicate directory entry name')
+
+                    filenames.add(filename)
 
                     srcfile = posixpath.join(srcpath, filename)
                     dstfile = posixpath.join(dstpath, filename)
